@@ -132,6 +132,10 @@ pub fn run() -> i32 {
         ("3-samples".into(), mk(3, &mut rng), true),
         ("101-samples".into(), mk(101, &mut rng), th),
     ];
+    // an archive that is large relative to its directory (len > 256 x footer length): at prefix len-1 the
+    // length field then decodes to a value that passes a plain range check and garbage is parsed as directory
+    let mid: Vec<Sample> = vec![("mid#0".to_string(), vec![("c0".to_string(), rng.bases(700_000))])];
+    sets.push(("mid-size".into(), mid, false));
     if th {
         let big: Vec<Sample> = vec![("big#0".to_string(), (0..6).map(|i| (format!("c{i}"), rng.bases(3_200_000))).collect())];
         sets.push(("over-4MiB".into(), big, false));
@@ -143,7 +147,7 @@ pub fn run() -> i32 {
     let mut per = Vec::new();
     for (name, samples, all_offsets) in &sets {
         let path = format!("{}/{}.agc", dir.display(), name);
-        let cfg = Cfg { k: 11, segment_size: if name == "over-4MiB" { 60000 } else { 50 }, min_match: 15, threads: 4, ..Cfg::default() };
+        let cfg = Cfg { k: 11, segment_size: if name == "over-4MiB" || name == "mid-size" { 60000 } else { 50 }, min_match: 15, threads: 4, ..Cfg::default() };
         if let Err(e) = build_archive(&path, samples, &cfg, 600) { rep.machinery_error(format!("cannot build {name}: {:?}", e)); continue; }
         let bytes = std::fs::read(&path).unwrap();
         let len = bytes.len();
@@ -152,7 +156,7 @@ pub fn run() -> i32 {
         let offsets: Vec<usize> = if *all_offsets {
             (0..len).collect()
         } else {
-            let mut v: Vec<usize> = (0..len).step_by(if len > 1 << 20 { 9973 } else { 97 }).collect();
+            let mut v: Vec<usize> = (0..len).step_by(if len > 1 << 20 { 9973 } else if len > 50_000 { 1009 } else { 97 }).collect();
             for b in [0usize, 1, 7, 8, 9, footer_start, len - 8, len - 1] { for d in 0..5 { v.push((b + d).saturating_sub(2).min(len - 1)); } }
             v.extend(footer_start.saturating_sub(3)..len); // the whole footer region
             v.sort(); v.dedup(); v
